@@ -9,7 +9,7 @@ Lemma reader_tables :
   reader_header_names = [[content_length]]
   /\ reader_line_delim = LF /\ reader_name_sep = COLON
   /\ reader_parseint_base = 10%Z /\ reader_parseint_bits = 32%Z
-  /\ reader_length_tests = [src [60;61;48]; src [61;61;48]]        (* length <= 0 ; length == 0 *)
+  /\ reader_int_tests = [src [61;61;48]; src [60;48]; src [60;61;48]; src [61;61;48]]   (* total == 0; colon < 0; length <= 0; length == 0 *)
   /\ reader_trimspace_calls = 2%Z.
 Proof. vm_compute. repeat split; reflexivity. Qed.
 
@@ -21,7 +21,7 @@ Proof.
   rewrite <- app_assoc. reflexivity.
 Qed.
 
-Lemma writer_args : writer_format_args = [src [108;101;110;40;100;97;116;97;41]].    (* len(data) *)
+Lemma writer_args : writer_format_args = [src [108;101;110;40;95;41]].    (* len(_) : the length of one variable *)
 Proof. vm_compute. reflexivity. Qed.
 
 (* the int32 bound of parse_int32 is the bit size the source passes to ParseInt *)
